@@ -5,7 +5,11 @@ HERE = os.path.dirname(os.path.dirname(os.path.abspath(__file__)))
 
 PROOF_NOTE = ("Trusted: Lean 4.33.0 kernel (axioms propext, Classical.choice, Quot.sound only; no native_decide/bv_decide, "
               "audited on every run with #print axioms), the compiled model `pmodel`, tools/extract.py for constants, "
-              "the C harness + orchestrator that tie the model to /repo's working tree, gcc ASan/UBSan as detector in the real code. ")
+              "the C harness + orchestrator that tie the model to /repo's working tree, gcc ASan/UBSan as detector in the real code. "
+              "What pmodel runs per protocol line is a typed step function from Model/ or Spec/ (drivers only parse and print); exec_* / "
+              "run_ops_* / monitor_accepts_model theorems relate it to the property theorems. A run that had to fall back (translator "
+              "did not recognise the source: documented constants + tenfold correspondence; white-box harness did not compile: black-box "
+              "mode, L1 only) says so in its evidence (coverage.translator_fallbacks). ")
 
 CLAIMS = {
  "C13": dict(
